@@ -303,6 +303,13 @@ let () =
     | _ -> "BADARGS")
 
 let () =
+  register "splicestr" (function
+    | me :: children ->
+        let pairs = List.map (fun (((_, o), _), ((_, n), _)) -> (o, n)) dummy_atoms in
+        String.concat "" (List.map (fun b -> if b then "1" else "0") (splice_str_children (explode me) pairs (List.map explode children)))
+    | _ -> "BADARGS")
+
+let () =
   register "specmol" (function
     | [tree] ->
         (match rgtree { s = tree; i = 0 } with
